@@ -20,8 +20,14 @@ pub struct Cnt {
     pub clones: u32,
 }
 
+/// The record of a caller's waker: behind its data pointer - or, for a waker WITHOUT a data pointer (null data, a vtable whose
+/// state lives in a static: what no-op, counting and executor-global wakers look like), the static record.
+static mut SCNT: Cnt = Cnt { live: 1, wakes: 0, bad: false, clones: 0 };
+unsafe fn rec(p: *const ()) -> &'static mut Cnt {
+    if p.is_null() { &mut *core::ptr::addr_of_mut!(SCNT) } else { &mut *(p as *mut Cnt) }
+}
 unsafe fn w_clone(p: *const ()) -> RawWaker {
-    let c = &mut *(p as *mut Cnt);
+    let c = rec(p);
     if c.live <= 0 {
         c.bad = true;
     }
@@ -30,7 +36,7 @@ unsafe fn w_clone(p: *const ()) -> RawWaker {
     RawWaker::new(p, &VT)
 }
 unsafe fn w_wake(p: *const ()) {
-    let c = &mut *(p as *mut Cnt);
+    let c = rec(p);
     if c.live <= 0 {
         c.bad = true;
     }
@@ -38,14 +44,14 @@ unsafe fn w_wake(p: *const ()) {
     c.live -= 1;
 }
 unsafe fn w_wake_by_ref(p: *const ()) {
-    let c = &mut *(p as *mut Cnt);
+    let c = rec(p);
     if c.live <= 0 {
         c.bad = true;
     }
     c.wakes += 1;
 }
 unsafe fn w_drop(p: *const ()) {
-    let c = &mut *(p as *mut Cnt);
+    let c = rec(p);
     if c.live <= 0 {
         c.bad = true;
     }
@@ -356,6 +362,34 @@ nd::harnesses! {
         assert!(!ha.alive && !hb.alive);
         assert!(!c.bad, "nothing touches the original after all handles (the caller's included) are gone");
         assert!(c.live == 0 && c.wakes == wakes);
+    }
+
+    /// The caller's waker has NO data pointer (null data, state in a static behind the vtable): chain of 2 as above. Its
+    /// clones are released exactly once all the same - a waker's data word is opaque to everyone but its vtable.
+    #[kani::unwind(3)]
+    fn c19_chain2_waker_without_data_pointer() {
+        unsafe { SCNT = Cnt { live: 1, wakes: 0, bad: false, clones: 0 }; }
+        let orig = unsafe { Waker::from_raw(RawWaker::new(core::ptr::null(), &VT)) };
+        let mut wakes = 0u32;
+        let (mut ha, mut hb) = {
+            let cw = CRefWaker::from(&orig);
+            cw.with_waker(|w| {
+                let a = w.clone();
+                let b = a.clone();
+                let mut ha = H::new(a, 2);
+                let mut hb = H::new(b, 2);
+                if nd::any() { w.wake_by_ref(); wakes += 1; }
+                phase(&mut ha, 0, &mut wakes); phase(&mut hb, 0, &mut wakes);
+                (ha, hb)
+            })
+        };
+        nd::cover!(ha.alive && hb.alive, "both handles retained after the poll");
+        if nd::any() { phase(&mut ha, 1, &mut wakes); phase(&mut hb, 1, &mut wakes); }
+        else { phase(&mut hb, 1, &mut wakes); phase(&mut ha, 1, &mut wakes); }
+        let c = unsafe { &*core::ptr::addr_of!(SCNT) };
+        finish(c, wakes, &[&ha, &hb]);
+        assert!(c.clones == 1, "one clone of the caller's waker per clone of the borrowed view");
+        core::mem::forget(orig);
     }
 
     /// No clone at all: only wake_by_ref on the borrowed waker, any number (0..=3) of times.
